@@ -54,7 +54,7 @@ func outBytes(rs *bits.RetState, j int) []bits.Vec {
 		return nil
 	}
 	v := rs.Ret.Results[j]
-	root, n := sliceRootLen(v)
+	root, n := sliceRootLen(rs.Machine, v)
 	if root == nil {
 		return nil
 	}
@@ -73,7 +73,7 @@ func outBytes(rs *bits.RetState, j int) []bits.Vec {
 func zeroByte() bits.Vec { return make(bits.Vec, 8) }
 
 // sliceRootLen finds the allocation behind a returned slice and its constant length.
-func sliceRootLen(v ssa.Value) (ssa.Value, int) {
+func sliceRootLen(m *bits.Machine, v ssa.Value) (ssa.Value, int) {
 	for i := 0; i < 8; i++ {
 		switch x := v.(type) {
 		case *ssa.Slice:
@@ -88,6 +88,12 @@ func sliceRootLen(v ssa.Value) (ssa.Value, int) {
 		case *ssa.MakeSlice:
 			if n, ok := core.ConstInt(x.Len); ok {
 				return x, int(n)
+			}
+			if m != nil {
+				// a length that the machine evaluates to a constant (a phi with one live edge under a case split)
+				if n, ok := m.ValueOf(x.Len).ConstVal(); ok && n < 1<<16 {
+					return x, int(n)
+				}
 			}
 			return nil, 0
 		case *ssa.Alloc:
